@@ -5,7 +5,7 @@ posixpath helpers, of the line helpers and of the three front ends is run on
 the same (file system, cwd, fn, text) as the real code in a temp tree.
 Hunter: the property against the public API with an independent Python
 substitution (own directive reader, own path walk)."""
-import os, sys, io, json, shutil, tempfile, itertools, logging, copy, re
+import os, sys, io, json, shutil, tempfile, itertools, logging, copy, re, time
 
 from checklib import codec
 from checklib.model import run_model
@@ -40,9 +40,6 @@ EXPLANATION = ("Model = Spec/Subst is a Coq theorem; the runs tie the model to t
 
 ROOT = os.path.dirname(os.path.dirname(os.path.dirname(os.path.abspath(__file__))))
 PY_WS = "".join(chr(c) for c in range(0x110000) if chr(c).isspace())
-
-EXN_CODE = {"IndexError": 4, "ValueError": 8, "OSError": 10, "TypeError": 7}
-
 
 def exc_class(ex):
     """Canonical class name: OSError family folded (IOError is OSError)."""
@@ -402,11 +399,25 @@ def inc_name(t, target_idx, st):
     raise ValueError(form)
 
 
+def reachable(t):
+    """Indices of the files reachable from the root file through include nodes."""
+    seen, todo = set(), [0]
+    while todo:
+        i = todo.pop()
+        if i in seen:
+            continue
+        seen.add(i)
+        if not t.files[i]["ghost"]:
+            todo += [n[1] for n in iter_incs(t.files[i]["nodes"])]
+    return seen
+
+
 def render(t):
-    """-> {relative path: text with the scratch-root placeholder}"""
+    """-> {relative path: text with the scratch-root placeholder} for the files reachable from the root"""
     out = {}
-    for f in t.files:
-        if f["ghost"]:
+    live = reachable(t)
+    for fi, f in enumerate(t.files):
+        if f["ghost"] or fi not in live:
             continue
         lines = []
 
@@ -496,19 +507,26 @@ class Impl:
     def __init__(self):
         import mappyfile
         from mappyfile.parser import Parser
-        from mappyfile.transformer import MapfileToDict
         import mappyfile.utils as U
         self.mappyfile = mappyfile
         self.U = U
         self.Parser = Parser
         self.parser = Parser()
-        self.parser_noexp = Parser(expand_includes=False)
-        self.m2d = MapfileToDict
 
         class CapParser(Parser):
             def _create_lalr_parser(self):
                 return _Stub()
         self.CapParser = CapParser
+        shared = {}
+
+        class FastParser(Parser):
+            def _create_lalr_parser(self):
+                if self.include_comments:
+                    return Parser._create_lalr_parser(self)
+                if "lalr" not in shared:
+                    shared["lalr"] = Parser._create_lalr_parser(self)
+                return shared["lalr"]
+        self.FastParser = FastParser
 
     def load_includes(self, text, fn):
         try:
@@ -540,23 +558,27 @@ class Impl:
         finally:
             U.Parser = old
 
-    def to_dict(self, tree):
-        return json.dumps(self.m2d().transform(tree), sort_keys=False, default=str)
-
-    def fast(self, mode, root, text, name, expand=True):
-        """Same three entry sequences as utils.open/load/loads but with the reused Parser object."""
-        p = self.parser if expand else self.parser_noexp
+    def fast_call(self, mode, root, text, name, expand=True):
+        """utils.open / load / loads themselves, with the Parser class swapped for a subclass that shares one
+        compiled grammar (Lark.open costs 0.15 s per call otherwise); everything else is the real code."""
+        U = self.U
+        old = U.Parser
+        U.Parser = self.FastParser
         try:
             if mode == 0:
-                tree = p.parse_file(root)
-            elif mode == 1:
+                return U.open(root, expand_includes=expand)
+            if mode == 1:
                 fp = io.StringIO(text)
                 if name is not None:
                     fp.name = name
-                tree = p.load(fp)
-            else:
-                tree = p.parse(text)
-            return ("ok", self.to_dict(tree))
+                return U.load(fp, expand_includes=expand)
+            return U.loads(text, expand_includes=expand)
+        finally:
+            U.Parser = old
+
+    def fast(self, mode, root, text, name, expand=True):
+        try:
+            return ("ok", json.dumps(self.fast_call(mode, root, text, name, expand), sort_keys=False, default=str))
         except Exception as ex:
             return ("exc", exc_class(ex))
 
@@ -607,8 +629,9 @@ def configs(rng, t, tmp, n):
 def features_of(t):
     """Which unusual surface features the include lines of a tree use."""
     fs = set()
-    for f in t.files:
-        if f["ghost"]:
+    live = reachable(t)
+    for fi, f in enumerate(t.files):
+        if f["ghost"] or fi not in live:
             continue
         if f["nl"] != "\n" and any(True for _ in iter_incs(f["nodes"])):
             fs.add("crlf")
@@ -636,7 +659,25 @@ def features_of(t):
 
 def simplifications(t):
     """Candidate smaller / plainer trees (for shrinking a failing case)."""
+    live = reachable(t)
+    # big steps first: drop an include line, empty a file of its ordinary lines
     for fi, f in enumerate(t.files):
+        if fi not in live or f["ghost"]:
+            continue
+        conts = containers(f["nodes"], "X", None, [])
+        for ci, cont in enumerate(conts):
+            for ni, n in enumerate(cont):
+                if n[0] == "inc":
+                    c = t.clone()
+                    del containers(c.files[fi]["nodes"], "X", None, [])[ci][ni]
+                    yield c
+        if fi != 0 and any(n[0] != "inc" for n in f["nodes"]):
+            c = t.clone()
+            c.files[fi]["nodes"] = [n for n in c.files[fi]["nodes"] if has_inc(n)]
+            yield c
+    for fi, f in enumerate(t.files):
+        if fi not in live or f["ghost"]:
+            continue
         incs = list(iter_incs(f["nodes"]))
         for k in range(len(incs)):
             for key in ("trailer", "kw", "gap", "lead", "form", "quote"):
@@ -658,7 +699,7 @@ def simplifications(t):
                     yield c
 
 
-def shrink_tree(t, fails, max_steps=400):
+def shrink_tree(t, fails, max_steps=250):
     steps = 0
     progress = True
     while progress and steps < max_steps:
@@ -777,8 +818,8 @@ def expected_includes(t):
     return out
 
 
-def noexpand_check(impl, t, use_api):
-    """-> list of (fingerprint, what)"""
+def noexpand_check(impl, t, use_api, front=0):
+    """expand_includes=False through open (front 0), load (1) or loads (2). -> list of (fingerprint, what)"""
     bad = []
     with Scratch() as sc:
         tmp = sc.tmp
@@ -789,14 +830,24 @@ def noexpand_check(impl, t, use_api):
         mf = impl.mappyfile
         exp = expected_includes(t)
         exp = [(p, k, [n.replace(TMP, tmp) for n in names]) for p, k, names in exp]
+        with io.open(root_abs, "r", encoding="utf-8") as f:
+            text = f.read()
         try:
             if use_api:
-                d = mf.open(root_abs, expand_includes=False)
+                if front == 0:
+                    d = mf.open(root_abs, expand_includes=False)
+                elif front == 1:
+                    with io.open(root_abs, "r", encoding="utf-8") as fp:
+                        d = mf.load(fp, expand_includes=False)
+                else:
+                    d = mf.loads(text, expand_includes=False)
             else:
-                d = impl.m2d().transform(impl.parser_noexp.parse_file(root_abs))
+                d = impl.fast_call(front, root_abs, text, root_abs, expand=False)
         except Exception as ex:
             kinds = sorted({k for _, k, _ in exp})
-            return [("noexpand:raises:%s:in-%s" % (exc_class(ex), "+".join(kinds)), "open(expand_includes=False) raised %s" % type(ex).__name__)]
+            fname = ("open", "load", "loads")[front]
+            fpr = "noexpand:raises:OSError:%s" % fname if isinstance(ex, OSError) else "noexpand:raises:%s:in-%s" % (exc_class(ex), "+".join(kinds))
+            return [(fpr, "%s(expand_includes=False) raised %s (directives in %s)" % (fname, type(ex).__name__, "+".join(kinds)))]
         for path, kind, names in exp:
             node = d
             try:
@@ -813,7 +864,7 @@ def noexpand_check(impl, t, use_api):
         if got_lines != want and not bad:
             bad.append(("noexpand:not-written-back", "dumps writes %r for directives %r" % (got_lines[:4], want[:4])))
         try:
-            d2 = mf.loads(out, expand_includes=False) if use_api else impl.m2d().transform(impl.parser_noexp.parse(out))
+            d2 = mf.loads(out, expand_includes=False) if use_api else impl.fast_call(2, None, out, None, expand=False)
             if json.dumps(d2, default=str) != json.dumps(d, default=str) and not bad:
                 bad.append(("noexpand:roundtrip-differs", "loads(dumps(d), expand_includes=False) != d"))
         except Exception as ex:
@@ -964,6 +1015,8 @@ def _run(ctx):
     api_every = max(1, len(trees) // n_api)
     depth_hist, mode_hist, verdict_hist = {}, {}, {}
     n_viol = 0
+    shrunk = {}
+    t_start = time.time()
     for ti, (tkind, _, t) in enumerate(trees):
         use_api = (ti % api_every == 0)
         first = len(model_cases)
@@ -976,18 +1029,25 @@ def _run(ctx):
             ctx.note_case(key, nontrivial=any(True for _ in iter_incs_all(t)))
             if v is not None:
                 n_viol += 1
-                _report_tree(ctx, impl, t, cfg, mc["tmp"], v)
+                # shrink and report at most three failing trees per symptom (each gets its own feature fingerprint)
+                shrunk[v[0]] = shrunk.get(v[0], 0) + 1
+                if shrunk[v[0]] <= 3 and time.time() - t_start < ctx.budget(60, 600):
+                    _report_tree(ctx, impl, t, cfg, mc["tmp"], v)
+                elif not any(x[0].startswith(v[0]) for x in ctx.violations) and not any(
+                        f["fingerprint"].startswith(v[0]) for f in ctx.findings):
+                    report(ctx, v[0], set(), v[1], {"kind": "tree", "files": mc["files"], "root": mc["root"], "cfg": rel_cfg(cfg, mc["tmp"])})
         d = tree_depth(t)
         depth_hist[d] = depth_hist.get(d, 0) + 1
     ctx.coverage["tree_depth_histogram"] = {str(k): v for k, v in sorted(depth_hist.items(), key=lambda kv: str(kv[0]))}
     ctx.coverage["call_mode_histogram"] = mode_hist
     ctx.coverage["oracle_verdict_histogram"] = verdict_hist
     ctx.count("trees", len(trees))
+    ctx.count("hunter_failing_configurations", n_viol)
     ctx.count("public_api_calls_unpatched", stats.get("api_calls", 0))
 
     # ---- 2. expand_includes=False
     n_noexp = ctx.budget(40, 600)
-    n_noexp_api = ctx.budget(4, 40)
+    n_noexp_api = ctx.budget(6, 60)
     for i in range(n_noexp):
         allowed = COMPOSITE_KINDS + (("METADATA",) if rng.random() < 0.15 else ())
         t = gen_tree(rng, 1, allowed=allowed)
@@ -998,12 +1058,12 @@ def _run(ctx):
                     if n[2]["form"] != "rel" or not re.fullmatch(r"[A-Za-z0-9_]+\.map", inc_name(t, n[1], n[2])):
                         n[2]["quote"] = '"'
         ctx.note_case("noexp:" + json.dumps(render(t).get(t.files[0]["path"])), nontrivial=True)
-        for fp, what in noexpand_check(impl, t, use_api=(i < n_noexp_api)):
-            ctx.violation(fp, what, {"kind": "noexpand", "root_text": render(t)[t.files[0]["path"]], "root": t.files[0]["path"]})
+        for fp, what in noexpand_check(impl, t, use_api=(i < n_noexp_api), front=i % 3):
+            ctx.violation(fp, what, {"kind": "noexpand", "root_text": render(t)[t.files[0]["path"]], "front": i % 3})
     for f in known_inputs():
         inp = f["input"]
         if inp.get("kind") == "noexpand":
-            bad = noexpand_text_check(impl, inp["root_text"])
+            bad = noexpand_text_check(impl, inp["root_text"], inp.get("front", 2))
             if bad:
                 ctx.violation(f["fingerprint"], f["what"], inp)
     ctx.count("noexpand_cases", n_noexp)
@@ -1222,16 +1282,28 @@ def _report_tree(ctx, impl, t, cfg, tmp, v):
            {"kind": "tree", "files": render(small), "root": small.files[0]["path"], "cfg": cfg_rel})
 
 
-def noexpand_text_check(impl, root_text):
-    """Recorded expand_includes=False input: True when the directives are still not kept / written back."""
+def noexpand_text_check(impl, root_text, front=2):
+    """Recorded expand_includes=False input through open (0) / load (1) / loads (2): True when the
+    directives are still not kept / written back (or the call raises)."""
     mf = impl.mappyfile
     names = [read_directive(l) for l in root_text.split("\n")]
     names = [n for n in names if n is not None]
-    try:
-        d = mf.loads(root_text, expand_includes=False)
-        out = mf.dumps(d)
-    except Exception:
-        return True
+    with Scratch() as sc:
+        p = os.path.join(sc.tmp, "root.map")
+        with io.open(p, "wb") as f:
+            f.write(root_text.encode("utf-8"))
+        os.chdir(sc.tmp)
+        try:
+            if front == 0:
+                d = mf.open(p, expand_includes=False)
+            elif front == 1:
+                with io.open(p, "r", encoding="utf-8") as fp:
+                    d = mf.load(fp, expand_includes=False)
+            else:
+                d = mf.loads(root_text, expand_includes=False)
+            out = mf.dumps(d)
+        except Exception:
+            return True
     got = sorted(l.strip() for l in out.split("\n") if l.strip().upper().startswith("INCLUDE"))
     return got != sorted('INCLUDE "%s"' % n for n in names)
 
@@ -1243,7 +1315,7 @@ def replay(ctx, body):
     old = os.getcwd()
     try:
         if r.get("kind") == "noexpand":
-            bad = noexpand_text_check(impl, r["root_text"])
+            bad = noexpand_text_check(impl, r["root_text"], r.get("front", 2))
             print("replay: expand_includes=False directives", "NOT written back unchanged" if bad else "written back unchanged")
             return 1 if bad else 0
         if "cfg" in r:
